@@ -31,7 +31,7 @@ def configs(tier):
                 if "id" in fields and index % 2 == 0:
                     checks.append(["uniq", "IsUnique", "id"])
                 if "kind" in fields:
-                    checks.append(["dc", "DistinctCount", "kind < 3"])
+                    checks.append(["dc " if header == 1 else (" dc" if header == 2 else "dc"), "DistinctCount", "kind < 3"])  # descriptions may carry blanks at either end
                 if "kt1" in fields:
                     checks.append(["pair", "IsUnique", "kt1, kt2"])  # keys holding tabs: distinct pairs whose joined texts are equal
                 if "amount" in fields and "id" not in fields:
@@ -40,6 +40,9 @@ def configs(tier):
                 if preset == "ods":
                     config["odf"] = {"col_runs": True}  # runs of equal cells are stored once, as office suites do
                 result.append(config)
+                if "note" in fields and header == 0 and preset in ("delimited", "ods"):
+                    # the same under a data format that allows ASCII only: the restriction applies to every field, also to free text without length
+                    result.append(dict(config, allowed=[[32, 126, False]]))
     return result
 
 
